@@ -37,7 +37,10 @@ Dec(m, k, ct) == IF ct.m = m /\ ct.k = k THEN ct.pt ELSE "garbage"
 
 \* what the document contains at `place` (writer side, Prop)
 Exempt(pl, em) == pl \in {"encrypt-dict-indirect", "encrypt-dict-direct"} \/ (pl = "metadata-stream" /\ ~em)
-Individually(pl) == pl \in {"string-in-object", "stream", "metadata-stream"}       \* encrypted with the object's own key
+\* strings anywhere inside an indirect object - its value itself, a dictionary value, an array element, inside nested containers -
+\* are encrypted with the object's own key
+StringPlaces == {"string-in-object", "string-bare", "string-in-array", "string-nested"}
+Individually(pl) == pl \in StringPlaces \cup {"stream", "metadata-stream"}       \* encrypted with the object's own key
 \* strings inside an object stream are protected by the encryption of the container; the xref stream is never encrypted
 PlainStored == [m |-> "none", k |-> <<>>, pt |-> "plain"]
 Stored(pl, v, idgen, em) == IF Exempt(pl, em) \/ ~Individually(pl) THEN PlainStored ELSE Enc(Method(v), ObjKey(v, idgen), "plain")
@@ -55,7 +58,8 @@ LibKey(v, idgen) == IF Method(v) = "AESV3" /\ "aesv3_key_truncated" \in Dev THEN
 
 \* does the library apply decryption at this place?
 LibDecrypts(pl, em) ==
-  CASE pl \in {"string-in-object", "stream"} -> TRUE
+  CASE pl \in {"string-in-object", "string-bare", "stream"} -> TRUE
+    [] pl \in {"string-in-array", "string-nested"} -> "array_elements_not_decrypted" \notin Dev      \* the decryption context is handed down into containers
     [] pl = "metadata-stream" -> em \/ "metadata_exemption_ignored" \in Dev
     [] pl = "encrypt-dict-indirect" -> "encrypt_dict_decrypted" \in Dev
     [] pl = "encrypt-dict-direct" -> FALSE                       \* the trailer is parsed without a decryption context
